@@ -18,6 +18,15 @@ SPECS = {
     'C05': _live('C05', 2500, 100000, ['the order of the list returned by Context.neighbors() is unspecified and not asserted']),
     'C09': _live('C09', 3000, 100000, ['upset_generalization is documented experimental and not checked']),
     'C10': _live('C10', 2500, 100000, ['order inside concept.atoms and the layout of str() are not asserted']),
+    'C11': {'world': 'S', 'runs': {'quick': 1200, 'thorough': 30000}, 'gen': {'focus': 'C11'}, 'stream': 'C11',
+            'timeout': 400, 'real': REAL, 'stub': STUB,
+            'assumptions': ['FCA model + documented dict encoding (sim/refmodel_fca.py) are the specification',
+                            'indistinguishable = equal transcripts of the query battery (sim/battery.py)',
+                            'raw=False on permuted storage and extra keys are unspecified; pickle bytes are not compared']},
+    'C12': {'world': 'S', 'runs': {'quick': 3000, 'thorough': 100000}, 'gen': {'focus': 'C12'}, 'stream': 'C12',
+            'timeout': 300, 'real': REAL, 'stub': STUB,
+            'assumptions': ['reference codecs (sim/refcodec.py) written from the format descriptions are the specification of the layouts',
+                            'labels outside each format\'s representable set and fromfile(encoding=None) under non-UTF-8 locales are unspecified']},
     'C13': {'world': 'D', 'runs': {'quick': 12000, 'thorough': 400000}, 'real': REAL, 'stub': STUB,
             'assumptions': ['ordered-table reference model (sim/refmodel_table.py) is the specification',
                             'move_* with an index outside 0..len-1 and one-shot iterator arguments are unspecified and not generated',
